@@ -338,8 +338,8 @@ def run(ctx):
     ctx.log('finding probes done')
     reg = sorted((VERIF / 'regress' / 'C20').glob('*.json'))
     regs = [json.loads(p.read_text()) for p in reg]
-    nf = 190 if ctx.tier == 'quick' else 3000
-    nr = 64 if ctx.tier == 'quick' else 1000
+    nf = 220 if ctx.tier == "quick" else 3600
+    nr = 76 if ctx.tier == "quick" else 1100
     fspecs = [s for s in regs if s.get('level') != 'run'] + [G.gen_fspec(ctx.rng) for _ in range(nf)]
     rspecs = [s for s in regs if s.get('level') == 'run'] + [G.gen_rspec(ctx.rng) for _ in range(nr)]
     verdicts, infos, stats = run_fspecs(ctx, fspecs, 'files')
